@@ -74,8 +74,13 @@ func v(f string, x float64) fieldVal { return fieldVal{Field: f, Val: x} }
 // points of the second family are lost for good.
 func TestRegression_MemdbCreatedTimeCollision(t *testing.T) {
 	known(t, sigCreatedTime, "one batch with rows of two families, FlushDB: the rows of the second family are never returned again")
+	var prev *regEnv
 	for attempt := 0; attempt < 5; attempt++ { // both databases are created microseconds apart; a tick boundary in between is possible
+		if prev != nil {
+			prev.stop() // one engine (and one set of query pools) per process at a time
+		}
 		r := newRegEnv(t, fieldDef{"s", tSum})
+		prev = r
 		r.forceWaitTick = false
 		if err := r.write(r.metrics, []rowSpec{
 			{M: 0, S: 0, TS: regBase + 57*60_000 + 1, Vals: []fieldVal{v("s", 13)}},
@@ -192,6 +197,7 @@ func TestRegression_NotFoundInOneSourceHidesTheFamily(t *testing.T) {
 		t.Fatalf("(a) got:\n%swant:\n%s", got, want)
 	}
 	// (b) the file holds series a only; series b lives in the memory database
+	r.stop() // one engine (and one set of query pools) per process at a time
 	r = newRegEnv(t, fieldDef{"s", tSum})
 	r.w(0, 0, v("s", 1))
 	if err := r.flushFamily(regBase); err != nil {
